@@ -187,6 +187,15 @@ def build_inputs(ctx):
                          "0041", "0001F600", "00110000", "FFFFFFFF", "777", "400", "{LATIN SMALL LETTER A}", "[41]", "(41)"):
                 add(q + "a\\" + c + body + "b" + q, "escape-cover")
                 add(q + "\\" + c + body, "escape-cover")
+    # pattern literals the host's regex compiler refuses at different stages (tokenising, parsing, code generation: look-behind of variable
+    # width, bad group references, duplicate / malformed names, bad ranges and repeats, unknown flags, huge repeats), alone and inside programs
+    for rx in ["(?<=a+)b", "(?<!x*)y", "(a)(?<=\\1+)", "(?<=a|bc)d", "(?P<n>a)(?P<n>b)", "(?P=undefined)", "(?P<1>a)", "(?P<n", "(?P<n>", "a**", "a*+", "(?i", "(?z)",
+               "(?-)", "[z-a]", "[a", "(?#", "a{2,1}", "a{99999999999}", "(", ")", "(?(1)a|b|c)", "(?(9)a)", "(?(x)a)", "*a", "+", "?", "\\8", "\\", "(?<n>a)",
+               "(?<=(a))\\1", "(?<=\\b+)", "((((((((((((((((((((a))))))))))))))))))))\\21", "(?i)(?-i)", "(?s-s:a)", "[[:alpha:]]", "[a-\\d]", "\\N{NOPE}", "\\x", "\\u12"]:
+        add("//" + rx + "//", "edge")
+        add("def p = //" + rx + "//; 1", "edge")
+        add("f(//" + rx + "//, 2)", "edge")
+        add("x matches //" + rx + "//", "edge")
     # nesting up to depth 40
     for d in (1, 5, 10, 20, 30, 40):
         for _ in range(3):
